@@ -203,20 +203,20 @@ Lemma step_lifetime c s o s' r x u :
   (exists u', s_heap s' x = Live u' /\ u_num u' = u_num u) \/ (o = GC /\ u_active u = false /\ s_heap s' x = Freed).
 Proof.
   intros I E Hx. destruct o; cbn in E.
-  - destruct (patch_inv c s p n I) as (s2 & b & E2 & _ & K & _). left. rewrite E2 in E. injection E as <- _. exact (K x u Hx).
-  - destruct (unpatch_inv c s p I) as (s2 & b & E2 & _ & K). left. rewrite E2 in E. injection E as <- _. exact (K x u Hx).
+  - destruct (patch_inv c s p n I) as (s2 & b & E2 & _ & K & _). left. rewrite E2 in E. injection E as <- _. exact (keeps_live_num _ _ K x u Hx).
+  - destruct (unpatch_inv c s p I) as (s2 & b & E2 & _ & K). left. rewrite E2 in E. injection E as <- _. exact (keeps_live_num _ _ K x u Hx).
   - destruct (prio_static_inv c s p v I) as (s2 & r2 & E2 & _ & K). left. rewrite E2 in E. injection E as <- _. rewrite K. eauto.
   - destruct (prio_inherit_inv c s p I) as (s2 & r2 & E2 & _ & K). left. rewrite E2 in E. injection E as <- _. rewrite K. eauto.
   - destruct (gc_inv c s I) as (s2 & l & E2 & _ & _ & _ & _ & Keep & Free & _). rewrite E2 in E. injection E as <- _.
     destruct (u_active u) eqn:Ea.
     + left. exists u. split; [exact (Keep x u Hx Ea) | reflexivity].
     + right. split; [reflexivity|]. split; [reflexivity | exact (Free x u Hx Ea)].
-  - destruct (sink_add_inv c s n cl I) as (s2 & r2 & E2 & _ & K). left. rewrite E2 in E. injection E as <- _. exact (K x u Hx).
-  - destruct (sink_rem_inv c s n cl I) as (s2 & r2 & E2 & _ & K). left. rewrite E2 in E. injection E as <- _. exact (K x u Hx).
-  - destruct (src_add_inv c s n cl I) as (s2 & r2 & E2 & _ & K). left. rewrite E2 in E. injection E as <- _. exact (K x u Hx).
+  - destruct (sink_add_inv c s n cl I) as (s2 & r2 & E2 & _ & K). left. rewrite E2 in E. injection E as <- _. exact (keeps_live_num _ _ K x u Hx).
+  - destruct (sink_rem_inv c s n cl I) as (s2 & r2 & E2 & _ & K). left. rewrite E2 in E. injection E as <- _. exact (keeps_live_num _ _ K x u Hx).
+  - destruct (src_add_inv c s n cl I) as (s2 & r2 & E2 & _ & K). left. rewrite E2 in E. injection E as <- _. exact (keeps_live_num _ _ K x u Hx).
   - destruct (src_rem_inv c s n cl I) as (s2 & r2 & E2 & _ & K). left. rewrite E2 in E. injection E as <- _. exact (K x u Hx).
   - destruct (data_inv c s p I) as (r2 & E2). left. rewrite E2 in E. injection E as <- _. eauto.
-  - destruct (stop_inv c s d I) as (s2 & r2 & E2 & _ & K). left. rewrite E2 in E. injection E as <- _. exact (K x u Hx).
+  - destruct (stop_inv c s d I) as (s2 & r2 & E2 & _ & K). left. rewrite E2 in E. injection E as <- _. exact (keeps_live_num _ _ K x u Hx).
 Qed.
 
 (* ---------- the invariant written out in the terms of the property statement *)
